@@ -98,25 +98,28 @@ def pathSimplifyPtr (s : Bytes) : Bytes :=
 /-- value of a hex digit as the C's hex2int(): `none` = 0xFF -/
 def hexC (b : UInt8) : Option UInt8 := hexVal b
 
-/-- the body of `do { ... } while (*src);` with `*src == '%'`: `po.head` is the byte at `dst`
-    (a '%'), `r` the bytes behind `src`; reading past the end reads the terminating NUL -/
+/-- the decode attempt at `*src == '%'`: `po.head` is the byte at `dst` (that '%'), `r` the bytes behind
+    `src`; reading past the end reads the terminating NUL.
+    `high = src[1]; low = high ? hex2int(src[2]) : 0xFF;` - on success `*dst = decoded; src += 2;` -/
+def urldecodeStep (po r : Bytes) : Bytes × Bytes :=
+  let high := r.getD 0 0
+  let low : Option UInt8 := if high ≠ 0 then hexC (r.getD 1 0) else none
+  match hexC high, low with
+  | some hv, some lv => (decodeByte hv lv :: po.drop 1, r.drop 2)
+  | _, _ => (po, r)
+
+/-- the body of `do { ... } while (*src);` -/
 def urldecodeLoop : Nat → Bytes → Bytes → Bytes
   | 0, po, _ => po.reverse
   | fuel + 1, po, r =>
-    let high := r.getD 0 0
-    let low : Option UInt8 := if high ≠ 0 then hexC (r.getD 1 0) else none
-    -- decode: overwrite the '%' at dst, src += 2
-    let (po1, r1) : Bytes × Bytes :=
-      match hexC high, low with
-      | some hv, some lv => (decodeByte hv lv :: po.drop 1, r.drop 2)
-      | _, _ => (po, r)
+    let st := urldecodeStep po r
     -- while ((*++dst = *++src) != '%' && *src) ;
-    let seg := r1.takeWhile (fun b => b ≠ pct && b ≠ 0)
-    match r1.drop seg.length with
-    | [] => (seg.reverse ++ po1).reverse                 -- *src == NUL (end of string)
+    let seg := st.2.takeWhile (fun b => b ≠ pct && b ≠ 0)
+    match st.2.drop seg.length with
+    | [] => (seg.reverse ++ st.1).reverse                -- *src == NUL (end of string)
     | b :: r2 =>
-      if b = 0 then (seg.reverse ++ po1).reverse         -- embedded NUL: the C stops here
-      else urldecodeLoop fuel (b :: (seg.reverse ++ po1)) r2      -- b = '%'
+      if b = 0 then (seg.reverse ++ st.1).reverse        -- embedded NUL: the C stops here
+      else urldecodeLoop fuel (b :: (seg.reverse ++ st.1)) r2     -- b = '%'
 
 /-- buffer_urldecode_path(): `memchr(b->ptr, '%', len)`, then the loop -/
 def urldecodePathC (s : Bytes) : Bytes :=
